@@ -354,10 +354,11 @@ an optional first `]`; otherwise `[` is a literal.  Inside the class text a
 character followed by `-` and a further character is a range (a range whose
 bounds are out of order is empty), everything else — `^`, `[`, `&`, `~`, `|`, a
 leading or trailing `-` — is a literal member.  An empty class never matches, a
-negated empty class matches any character.  (One quirk of CPython is *not*
-mirrored: when the class text begins with an empty range, as in `[b-a!x]`, the
-translation re-reads a following `!` as negation; the harness never sends such a
-pattern to the model.) -/
+negated empty class matches any character.  One quirk of CPython is mirrored
+too: `translate` removes empty ranges *before* it looks at the first character
+of the class text, so when the text begins with empty ranges followed by `!`, as
+in `[b-a!x]`, the `!` is read as the negation mark (`stripEmptyRanges` in
+`tokenize`). -/
 
 /-- one unit of a translated pattern -/
 inductive Tok where
@@ -409,6 +410,20 @@ def Tok.accepts (c : Char) : Tok → Bool
   | .lit x => x == c
   | .cls neg body => if neg then !(classHas c body) else classHas c body
 
+/-- a class text without its leading empty ranges (`lo-hi` with `hi < lo`) -/
+def stripEmptyRanges : List Char → List Char
+  | lo :: m :: hi :: t => if m == '-' && decide (hi < lo) then stripEmptyRanges t else lo :: m :: hi :: t
+  | l => l
+
+/-- the text of the *negated* class CPython reads when a class text, after its leading empty
+ranges are dropped, begins with `!`.  If the `!` was the lower bound of a range `!-hi`, the `-`
+and `hi` become plain members (written here as the one-character ranges `---` and `hi-hi`, after
+which a new item starts, exactly as after the original range). -/
+def negAfterStrip : List Char → Option (List Char)
+  | '!' :: '-' :: hi :: rest => some ('-' :: '-' :: '-' :: hi :: '-' :: hi :: rest)
+  | '!' :: t => some t
+  | _ => none
+
 /-- the pattern as tokens; the fuel is the pattern length (the text after a
 class is shorter than the text after its `[`) -/
 def tokenize : Nat → List Char → List Tok
@@ -419,7 +434,11 @@ def tokenize : Nat → List Char → List Tok
       else if c == '?' then .any :: tokenize n cs
       else if c == '[' then
         match splitClass cs with
-        | some (neg, body, rest) => .cls neg body :: tokenize n rest
+        | some (neg, body, rest) =>
+            -- CPython drops empty ranges before it looks for the negation mark: `[b-a!x]` is `[!x]`
+            match (if neg then none else negAfterStrip (stripEmptyRanges body)) with
+            | some body' => .cls true body' :: tokenize n rest
+            | none => .cls neg body :: tokenize n rest
         | none => .lit '[' :: tokenize n cs
       else .lit c :: tokenize n cs
 
@@ -598,6 +617,51 @@ def Op.keepsCache : Op → Bool
   | .mmLang _ kw => kw == 0
   | .mmForFile _ kw => kw == 0
   | _ => true
+
+/-! ### `*_for_file` and the cache, read off the history
+
+`UniqueMatch E l f d` — among the languages `l`, `d` is the one whose pattern
+accepts `f` (what `language_for_file` needs to succeed).  `Op.spares E k l op` —
+the call `op`, made when the live languages are `l`, cannot replace the cache
+entry kept under the folded name `k`: it is not a clear, and if it carries
+keyword arguments it resolves to another name (`metamodel_for_language`) or
+does not resolve to a single language of that name (`metamodel_for_file`).
+`sparesAll` walks a history with `liveStep`.  All three are computable and
+mention neither the machine state nor `step`. -/
+
+def UniqueMatch (E : Env) (l : List LangDesc) (f : String) (d : LangDesc) : Prop :=
+  d ∈ l ∧ patMatches E f d = true ∧ ∀ d', d' ∈ l → patMatches E f d' = true → d' = d
+
+/-- Boolean form of `∃ d, UniqueMatch E l f d ∧ E.lower d.name = k` -/
+def resolvesTo (E : Env) (l : List LangDesc) (f : String) (k : String) : Bool :=
+  l.any fun d => patMatches E f d && E.lower d.name == k &&
+    l.all fun d' => !patMatches E f d' || d' == d
+
+def Op.spares (E : Env) (k : String) (l : List LangDesc) : Op → Bool
+  | .clearLangs => false
+  | .mmLang n kw => kw == 0 || E.lower n != k
+  | .mmForFile f kw => kw == 0 || !resolvesTo E l f k
+  | _ => true
+
+def sparesAll (E : Env) (k : String) : List LangDesc → List Op → Bool
+  | _, [] => true
+  | l, op :: ops => op.spares E k l && sparesAll E k (liveStep E l op) ops
+
+/-- a meta-model source `metamodel_for_language` can answer from: an instance or
+a factory producing meta-models -/
+def MMSrc.usable : MMSrc → Bool
+  | .inst _ => true
+  | .factory => true
+  | _ => false
+
+/-- two lists of the same length whose elements are related position by position -/
+def AllPairs {α β : Type} (R : α → β → Prop) : List α → List β → Prop
+  | [], [] => True
+  | a :: as, b :: bs => R a b ∧ AllPairs R as bs
+  | _, _ => False
+
+/-- the argument-less `metamodel_for_language` calls `metamodels_for_file` makes for the languages `ds` -/
+def mmCalls (ds : List LangDesc) : List Op := ds.map fun d => .mmLang d.name 0
 
 /-- what the specification assumes about the environment -/
 structure Env.Ok (E : Env) : Prop where
